@@ -370,7 +370,7 @@ COMMON_ASSUMPTIONS = [
     'shims of R6/R7 (spec/vshim.rs): u16/u32/u64 to/from little-endian bytes = vstd::bytes specs; Vec::drain(..n) / VecDeque::drain(..n) remove the first n elements',
     'crc32 is an uninterpreted function of (payload, type byte) (R9); nothing is assumed about it',
     'FS primitives (rolling/*): assumed contracts over a ghost model -- a file is a byte stream cut into 32 KiB blocks (spec/vfs.rs, read side); BufWriter<File> = vshim::BufFile with ghost content()/flushed()/synced() (write side): flush hands everything to the OS, fdatasync makes what the OS has durable, a forward seek skips bytes the file already holds; what is on disk after a FAILED write is not modelled',
-    'A-stream-bound: fewer than 2^62 bytes are written through one RollingWriter (explicit assume at the roll-over); A-file-number-bound: the number of the file being written is below 2^63 (explicit assume before FileTracker::inc); A-file-count: fewer than 2^37 WAL files are tracked (explicit assume in RollingWriter::size); A-file-size: a WAL file holds at most 4096 full blocks, so recovery resumes within its first 128 MiB (explicit assume in RollingReader::into_writer)',
+    'A-stream-bound: fewer than 2^62 bytes are written through one RollingWriter (explicit assume at the roll-over); A-file-number-bound: the number of the file being written is below 2^63 (explicit assume before FileTracker::inc); A-file-count: fewer than 2^37 WAL files are tracked (explicit assume in RollingWriter::size); A-file-size: a WAL file holds at most 4096 full blocks, so recovery resumes within its first 128 MiB (explicit assume in RollingReader::into_writer); A-mem-total: the total of reserved bytes over all in-memory queues fits usize (explicit assume in MemQueues::size)',
     'usize is 64 bit; machine arithmetic is NOT treated as mathematical (every +,-,*,cast is an overflow obligation)',
     'physical bounds: a payload buffer never exceeds 2^60 bytes; one GC pass writes less than 2^60 bytes',
     'spec_from axioms (spec/vfrom.rs): the `?` operator converts errors exactly as the crate\'s verified From impls',
